@@ -178,6 +178,8 @@ func (c call) String() string {
 		return fmt.Sprintf("ReadFrom(%s)", d)
 	case "FlushError":
 		return "FlushError()"
+	case "UnsupportedCaps":
+		return "Hijack();Push();SetReadDeadline();SetWriteDeadline();EnableFullDuplex() (none offered by the underlying writer)"
 	}
 	return fmt.Sprintf("%s(%q)", c.Kind, c.Data)
 }
@@ -213,7 +215,7 @@ func alphabet() []call {
 		{Kind: "WriteString", Data: ""}, {Kind: "WriteString", Data: "abc"},
 		{Kind: "ReadFrom", Data: "xyz", Fail: -1}, {Kind: "ReadFrom", Data: "", Fail: -1},
 		{Kind: "ReadFrom", Data: "xyz", Fail: 0}, {Kind: "ReadFrom", Data: "xyzw", Fail: 2},
-		{Kind: "FlushError"},
+		{Kind: "FlushError"}, {Kind: "UnsupportedCaps"},
 		// long enough to leave the first-chunk phase of the io.ReaderFrom fast path
 		{Kind: "ReadFrom", Data: strings.Repeat("q", 600), Fail: -1}, {Kind: "ReadFrom", Data: strings.Repeat("q", 600), Fail: 520},
 	}
@@ -250,6 +252,7 @@ func runSeq(cs Case) ([]answers, *ledger, string, string) {
 	}
 	for i, c := range cs.Calls {
 		var pv any
+		capErr := ""
 		func() {
 			defer func() { pv = recover() }()
 			switch c.Kind {
@@ -266,8 +269,24 @@ func runSeq(cs Case) ([]answers, *ledger, string, string) {
 				told = append(told, c.Data[:max(0, min(int(n), len(c.Data)))]...)
 			case "FlushError":
 				_ = w.FlushError()
+			case "UnsupportedCaps":
+				// none of the sequence writers offers these: each must fail with ErrNotSupported and
+				// must not change anything (checked by the ledger comparison below)
+				_, _, e1 := w.Hijack()
+				e2 := w.Push("/x", nil)
+				e3 := w.SetReadDeadline(time.Time{})
+				e4 := w.SetWriteDeadline(time.Time{})
+				e5 := w.EnableFullDuplex()
+				for _, e := range []error{e1, e2, e3, e4, e5} {
+					if !errors.Is(e, http.ErrNotSupported) {
+						capErr = fmt.Sprintf("an optional capability the underlying writer does not offer returned %v, want an error matching http.ErrNotSupported", e)
+					}
+				}
 			}
 		}()
+		if capErr != "" {
+			return ans, l, "not-supported-error", capErr + " after " + desc(i)
+		}
 		if pv != nil {
 			return ans, l, "panic", fmt.Sprintf("%s panicked: %v", desc(i), pv)
 		}
